@@ -140,21 +140,44 @@ type nextBackendFunc func() (backendAddr string, log logr.Logger, ok bool)
 // substituteBackendParams replaces $1, $2, etc. in the backend address template with captured groups.
 // If a parameter index is out of range or missing, it leaves the parameter as-is (e.g., "$99" stays "$99").
 func substituteBackendParams(template string, groups []string) string {
-	if len(groups) == 0 {
+	if len(groups) == 0 || !strings.Contains(template, "$") {
 		return template
 	}
 
-	result := template
-	// Replace $1, $2, etc. with captured groups
-	// We need to handle this carefully to avoid replacing $10 when we mean $1
-	// Process from highest index to lowest to avoid partial replacements
-	for i := len(groups); i >= 1; i-- {
-		param := fmt.Sprintf("$%d", i)
-		if i-1 < len(groups) {
-			result = strings.ReplaceAll(result, param, groups[i-1])
+	// Single pass over the template: "$" followed by its maximal digit run is a parameter
+	// iff the run is the decimal of an existing group index. Substituted text is never
+	// scanned again, and "$1" followed by another digit is not "$1".
+	var b strings.Builder
+	for i := 0; i < len(template); {
+		if template[i] != '$' {
+			b.WriteByte(template[i])
+			i++
+			continue
 		}
+		j := i + 1
+		for j < len(template) && template[j] >= '0' && template[j] <= '9' {
+			j++
+		}
+		if idx, ok := paramIndex(template[i+1:j], len(groups)); ok {
+			b.WriteString(groups[idx-1])
+		} else {
+			b.WriteString(template[i:j])
+		}
+		i = j
 	}
-	return result
+	return b.String()
+}
+
+// paramIndex parses digits as a group index in 1..n (no leading zeros).
+func paramIndex(digits string, n int) (int, bool) {
+	if digits == "" || digits[0] == '0' || len(digits) > 9 {
+		return 0, false
+	}
+	idx := 0
+	for i := 0; i < len(digits); i++ {
+		idx = idx*10 + int(digits[i]-'0')
+	}
+	return idx, idx <= n
 }
 
 func findRoute(
